@@ -161,6 +161,41 @@ def rand_history(rng, cfg, n, conc):
     return h
 
 
+def storm_scripts(rng, thorough):
+    """storms near the limit: larger maxima, many goroutines issuing identical requests at one mock instant, window after
+    window; addressed to a root quota or to a child (then the parent is shared with a sibling's storms)."""
+    out = []
+    for c in range(2 if not thorough else 6):
+        mx = rng.choice([40, 60, 100, 150])
+        if c % 2 == 0:
+            cfg = {"quotas": ["s1"], "parent": {"s1": "-"}, "Max": {"s1": mx}, "W": {"s1": rng.choice([2, 4])},
+                   "grouped": {"s1": rng.random() < 0.5}, "groups": ["a", "b", "default"], "custom": False}
+            targets = ["s1"]
+        else:
+            cfg = {"quotas": ["sp", "sa", "sb"], "parent": {"sp": "-", "sa": "sp", "sb": "sp"},
+                   "Max": {"sp": mx, "sa": rng.choice([mx // 2, mx, mx + 20]), "sb": rng.choice([mx // 2, mx])},
+                   "W": {"sp": 4, "sa": rng.choice([2, 4]), "sb": 2},
+                   "grouped": {"sp": False, "sa": rng.random() < 0.5, "sb": False}, "groups": ["a", "b", "default"], "custom": False}
+            targets = ["sp"]        # storms address a root quota (one level: no open choice of how far refused requests were charged)
+        hs = []
+        for _ in range(4 if not thorough else 8):
+            h = [{"ev": "reset", "now": rng.randint(2, 9)}]
+            for _ in range(14 if not thorough else 20):
+                q = rng.choice(targets)
+                g = rng.choice(["a", "a", "default"])
+                lim = min(cfg["Max"][x] for x in chain(cfg, q))
+                h.append({"ev": "storm", "q": q, "g": g, "cost": 1, "n": rng.choice([lim + 8, 2 * lim, 2 * lim, lim // 2 + 3]),
+                          "par": rng.choice([8, 16, 16, 32])})
+                x = rng.random()
+                if x < 0.6:
+                    h.append({"ev": "adv", "d": rng.choice([cfg["W"][q], cfg["W"][q] - 1, cfg["W"][q] + 1, 1])})
+                elif x < 0.8:
+                    h.append({"ev": "arrive", "q": rng.choice(cfg["quotas"]), "g": g, "cost": 1})
+            hs.append(h)
+        out.append(script_of(cfg, hs))
+    return out
+
+
 def script_of_history(hist):
     """strip outcomes from a recorded history -> script events (concurrent groups re-assembled)."""
     out, conc, open_ids = [], None, set()
@@ -176,7 +211,10 @@ def script_of_history(hist):
             continue
         else:
             conc = None
-            out.append({k: v for k, v in e.items() if k != "out"})
+            if e["ev"] == "storm":
+                out.append({"ev": "storm", "q": e["q"], "g": e["g"], "cost": e["cost"], "n": e["n"], "par": 16})
+            else:
+                out.append({k: v for k, v in e.items() if k != "out"})
     return out
 
 
@@ -206,7 +244,7 @@ def witness_of(rej):
     q = e.get("q")
     return {"class": "verdict-not-allowed-by-spec" if not rej.get("invariant") else "bound-exceeded",
             "event": e, "now": now, "depth": len(chain(cfg, q)) if q in cfg.get("parent", {}) else 0,
-            "concurrent": e["ev"] in ("begin", "end"), "invariant": rej.get("invariant")}
+            "concurrent": e["ev"] in ("begin", "end", "storm"), "invariant": rej.get("invariant")}
 
 
 def execute(ctx, binary, scripts, tag):
@@ -242,6 +280,9 @@ def drift_check(ctx, tag, n):
     ctx.log(ctx.notes[-1])
 
 
+UNREPRODUCED = []
+
+
 def judge(ctx, binary, scripts, traces, tag, seen_hist):
     """validate recorded traces against FixedWindowP; confirm each rejection by re-execution; report."""
     def one(it):
@@ -252,7 +293,7 @@ def judge(ctx, binary, scripts, traces, tag, seen_hist):
         cfg, hs = split_histories(ev)
         ctx.cov["traces_validated_against_impl"] += acc
         for h in hs:
-            ctx.cov["evaluations"] += sum(1 for e in h if e["ev"] in ("arrive", "begin"))
+            ctx.cov["evaluations"] += sum(1 for e in h if e["ev"] in ("arrive", "begin")) + sum(e["n"] for e in h if e["ev"] == "storm")
             key = json.dumps([cfg, h], sort_keys=True)
             if key not in seen_hist:
                 seen_hist.add(key)
@@ -270,7 +311,10 @@ def judge(ctx, binary, scripts, traces, tag, seen_hist):
                     reproduced = True
                     break
             if not reproduced:
-                raise Broken("rejection not reproduced (%s): %s" % (tag, json.dumps(w)))
+                # never reported as a violation; the run is broken unless other rejections were reproduced
+                ctx.notes.append("rejection not reproduced in %d attempts (%s): %s" % (20 if w["concurrent"] else 1, tag, json.dumps(w)))
+                UNREPRODUCED.append(w)
+                continue
             ctx.violation(w, {"script": [script], "trace": [rej["config"]] + rej["hist"], "rejected_at": rej["at"]})
 
 
@@ -298,7 +342,8 @@ def run(ctx):
     sd = ctx.spec_dir(SPEC)
     ctx.cov["rule"] = ("histories = seeded random request scripts (requests addressed to any quota of a random forest, group header "
                        "values, clock advances of 1 tick .. W+1 incl. steps landing exactly on window ends, ResetIn calls, concurrent "
-                       "batches; every third configuration uses the custom-counter strategy with costs 0..3) + TLC -simulate walks of "
+                       "batches; every third configuration uses the custom-counter strategy with costs 0..3; storms: 8-32 goroutines issuing "
+                       "up to 2x max identical requests at one instant on quotas with max 40-150, window after window) + TLC -simulate walks of "
                        "FixedWindowP; a history is non-trivial when a request is refused, the clock then advances and a later request "
                        "is admitted (a window was reopened); distinct by (config, events)")
     ctx.cov["checker_cmd"] = ("tlc -config MC_seq_small.cfg MC_C01.tla ; tlc -config MC_conc_small.cfg MC_C01.tla ; "
@@ -345,11 +390,13 @@ def run(ctx):
     for c in range(ncfg):
         cfg = rand_config(ctx.rng, T, custom=(c % 3 == 2))
         scripts.append(script_of(cfg, [rand_history(ctx.rng, cfg, hl, conc=(i % 2 == 1)) for i in range(nh)], hooks=True))
+    nrand = len(scripts)
+    scripts += storm_scripts(ctx.rng, T)
     rtraces = execute(ctx, binary, scripts, "rand")
     ctx.sample({"kind": "recorded-trace", "events": rtraces[0][:14]})
     judge(ctx, binary, scripts, rtraces, "rand", seen)
     if not ctx.violations:
-        drift_check(ctx, "rand", len(scripts))
+        drift_check(ctx, "rand", nrand)
 
     g = None
     for job, r in zip(jobs, fut.result()):
@@ -381,6 +428,8 @@ def run(ctx):
     ctx.sample({"kind": "tlc-behaviour", "config": GEN_CONFIG, "events": behaviours[0][:12]})
     judge(ctx, binary, gscripts, traces, "gen", seen)
 
+    if UNREPRODUCED and not ctx.violations:
+        raise Broken("rejection(s) not reproduced: %s" % json.dumps(UNREPRODUCED[0]))
     if ctx.cov["distinct_nontrivial"] < 20 and not ctx.violations:
         raise Broken("only %d non-trivial histories" % ctx.cov["distinct_nontrivial"])
 
